@@ -14,7 +14,7 @@ class Check(EngineCheck):
                 E + "C02_null_build_runs_nothing", E + "C02_null_build_after_build", E + "engine_fingerprint_matches_model",
                 E + "C09_changed_definition_reruns", E + "C09_changed_definition_signature_differs",
                 E + "C09_unchanged_definition_needs_other_reason"]
-    mix = [(0.6, {}), (0.2, {"cancel": True}), (0.2, {"threads": True})]
+    mix = [(0.45, {}), (0.2, {"cancel": True}), (0.15, {"threads": True}), (0.2, {"reprogram": True})]
     budget = (300, 3000)
     assumptions = EngineCheck.assumptions + [
         "C02_null_build_after_build: the only client fact assumed is that the rules still accept the values they hold (Program.valid) when the next build starts; signatures, epochs and recorded dependencies are covered by the invariants Inv and Inv2 of the abstract engine"]
